@@ -144,14 +144,17 @@ func ruleRunLogInsertsOnce(c *core.Ctx) {
 	var fnCall *ast.CallExpr
 	ast.Inspect(d.Decl.Body, func(n ast.Node) bool {
 		if call, ok := n.(*ast.CallExpr); ok {
-			if id, ok := call.Fun.(*ast.Ident); ok && id.Name == "fn" {
+			if isParamFuncCall(d, call) {
 				fnCall = call
 			}
 		}
 		return true
 	})
-	if len(ins) != 1 || fnCall == nil {
-		c.Fail("DOM/run-log", key+":calls", pos(c, d.Decl), fmt.Sprintf("runLog must call the operation once and InsertLog exactly once (InsertLog calls: %d)", len(ins)))
+	if fnCall == nil {
+		c.Unrecognised("DOM/run-log", key+":calls", pos(c, d.Decl), "the call of the operation callback was not found in runLog itself")
+		return
+	}
+	if !onceEach(c, d, "DOM/run-log", key+":calls", "runLog must record the operation's result with InsertLog exactly once", "InsertLog") {
 		return
 	}
 	flow := astx.NewFlow(info, d.Decl.Body)
@@ -525,8 +528,11 @@ func ruleImportGuard(c *core.Ctx) {
 	info := d.Pkg.TypesInfo
 	key := declKey(d)
 	wl := callsTo(info, d.Decl.Body, named("withLock"))
-	if len(wl) != 1 || len(wl[0].Args) != 3 {
-		c.Fail("DOM/import-guard", key+":lock", pos(c, d.Decl), "Import does not run under withLock")
+	if !onceEach(c, d, "DOM/import-guard", key+":lock", "Import does not run under withLock", "withLock") {
+		return
+	}
+	if len(wl[0].Args) != 3 {
+		c.Unrecognised("DOM/import-guard", key+":lock", pos(c, d.Decl), "withLock is not called with (ctx, controller, callback)")
 		return
 	}
 	fl, ok := wl[0].Args[2].(*ast.FuncLit)
